@@ -440,9 +440,15 @@ func run(c Case, own string) (res result) {
 		case <-time.After(grace):
 			// The released worker is not blocked according to the lock mirror, all
 			// other workers are parked at hook points, yet it does not reach its
-			// next hook point.
+			// next hook point. (It may have arrived in the very same instant.)
+			select {
+			case p := <-w.arrive:
+				s.arrived(w, p)
+				continue
+			default:
+			}
 			st := goroutineState(w.gid)
-			if strings.Contains(st, "Mutex.Lock") || strings.Contains(st, "semacquire") || strings.Contains(st, "sync.") || strings.Contains(st, "chan ") {
+			if strings.Contains(st, "Mutex.Lock") || strings.Contains(st, "RWMutex") || strings.Contains(st, "semacquire") || strings.Contains(st, "sync.Cond") {
 				s.fail("unmodelled-block", "worker %d (last at %s) was released but is blocked (%s) although it waits for no table lock held by another transaction: an open write transaction (or registration) delays a transaction that shares no table with it; %s", w.id, w.parkedAt, st, s.describe())
 			} else {
 				w.stuck = true // slow, not blocked: keep going with the others
